@@ -35,7 +35,7 @@ use super::vk;
 // uninterpreted compression function
 // ---------------------------------------------------------------------------------------------
 
-pub const UF_CAP: usize = 160;
+pub const UF_CAP: usize = 256;
 pub static mut UF_N: usize = 0;
 static mut UF_S: [u64; UF_CAP] = [0; UF_CAP];
 static mut UF_A: [u64; UF_CAP] = [0; UF_CAP];
@@ -56,6 +56,8 @@ pub fn uf_calls() -> usize {
     unsafe { UF_N }
 }
 
+/// Table mode (native replay, and Kani with `--cfg verif_uf_table`): Ackermann encoding at run time.
+#[cfg(any(not(kani), verif_uf_table))]
 #[inline(never)]
 pub fn mix(s: u64, a: u64, b: u64) -> u64 {
     unsafe {
@@ -79,6 +81,22 @@ pub fn mix(s: u64, a: u64, b: u64) -> u64 {
             UF_OVERFLOW = true;
         }
         out
+    }
+}
+
+/// Default mode under Kani: CBMC's own uninterpreted function symbol (harness/common/uf.c, linked by the
+/// driver). Same semantics as the table (a function, nothing else known), far cheaper for the solver; when a
+/// harness fails in this mode the driver re-runs it in table mode to obtain replayable values.
+#[cfg(all(kani, not(verif_uf_table)))]
+extern "C" {
+    fn uf_mix(s: u64, a: u64, b: u64) -> u64;
+}
+#[cfg(all(kani, not(verif_uf_table)))]
+#[inline(never)]
+pub fn mix(s: u64, a: u64, b: u64) -> u64 {
+    unsafe {
+        UF_N += 1;
+        uf_mix(s, a, b)
     }
 }
 
@@ -158,19 +176,26 @@ pub fn h_concat<H: Default + Update + FixedOutput>(parts: &[&[u8]]) -> Output<H>
     h.finalize_fixed()
 }
 
-/// `hash(tag ‖ for each input: I2OSP(len,2) ‖ bytes ‖ 0xff ‖ for each dst part: I2OSP(len,2) ‖ bytes)`
-/// — an injective encoding of (tag, inputs, dst); the first digest byte is what the model groups map
-/// into their scalar / element range.
+/// `hash(tag ‖ I2OSP(len(input),2) ‖ input ‖ I2OSP(len(dst),2) ‖ dst)` where `input` / `dst` are the
+/// concatenations of the given parts (as in expand_message_xmd the chunking is irrelevant) — an injective
+/// encoding of (tag, input, dst); the first digest byte is what the model groups map into their range.
 fn model_hash_to_byte<H: Default + Update + FixedOutput>(tag: u8, input: &[&[u8]], dst: &[&[u8]]) -> u8 {
     let mut h = H::default();
     h.update(&[tag]);
+    let mut n = 0usize;
     for p in input {
-        h.update(&(p.len() as u16).to_be_bytes());
+        n += p.len();
+    }
+    h.update(&(n as u16).to_be_bytes());
+    for p in input {
         h.update(p);
     }
-    h.update(&[0xff, 0xff, 0xff]);
+    let mut n = 0usize;
     for p in dst {
-        h.update(&(p.len() as u16).to_be_bytes());
+        n += p.len();
+    }
+    h.update(&(n as u16).to_be_bytes());
+    for p in dst {
         h.update(p);
     }
     let d = h.finalize_fixed();
@@ -247,20 +272,18 @@ impl<'a> Mul<&'a S251> for S251 {
     }
 }
 
-/// s^(p-2) mod p by square-and-multiply (p-2 = 249 = 0b11111001); 0 ↦ 0
+/// multiplicative inverses mod 251 (0 ↦ 0); a constant table: a symbolic index into it is an ite chain,
+/// far cheaper for the SAT solver than two copies of a square-and-multiply circuit to be proved equal
+pub static INV251: [u8; 251] = [0, 1, 126, 84, 63, 201, 42, 36, 157, 28, 226, 137, 21, 58, 18, 67, 204, 192, 14, 185, 113, 12, 194, 131, 136, 241, 29, 93, 9, 26, 159, 81, 102, 213, 96, 208, 7, 95, 218, 103, 182, 49, 6, 216, 97, 106, 191, 235, 68, 41, 246, 64, 140, 90, 172, 178, 130, 229, 13, 234, 205, 107, 166, 4, 51, 112, 232, 15, 48, 211, 104, 99, 129, 196, 173, 164, 109, 163, 177, 197, 91, 31, 150, 124, 3, 189, 108, 176, 174, 110, 53, 80, 221, 27, 243, 37, 34, 44, 146, 71, 123, 169, 32, 39, 70, 153, 45, 61, 86, 76, 89, 199, 65, 20, 240, 227, 132, 118, 117, 135, 228, 195, 179, 100, 83, 249, 2, 168, 151, 72, 56, 23, 116, 134, 133, 119, 24, 11, 231, 186, 52, 162, 175, 165, 190, 206, 98, 181, 212, 219, 82, 128, 180, 105, 207, 217, 214, 8, 224, 30, 171, 198, 141, 77, 75, 143, 62, 248, 127, 101, 220, 160, 54, 74, 88, 142, 87, 78, 55, 122, 152, 147, 40, 203, 236, 19, 139, 200, 247, 85, 144, 46, 17, 238, 22, 121, 73, 79, 161, 111, 187, 5, 210, 183, 16, 60, 145, 154, 35, 245, 202, 69, 148, 33, 156, 244, 43, 155, 38, 149, 170, 92, 225, 242, 158, 222, 10, 115, 120, 57, 239, 138, 66, 237, 59, 47, 184, 233, 193, 230, 114, 25, 223, 94, 215, 209, 50, 188, 167, 125, 250];
+
+/// s^(-1) mod 251; 0 and out-of-range ↦ 0
 pub fn invmod(s: u8, p: u16) -> u8 {
-    let e: u16 = p - 2;
-    let mut acc: u8 = 1;
-    let mut base: u8 = (s as u16 % p) as u8;
-    let mut i = 0;
-    while i < 8 {
-        if (e >> i) & 1 == 1 {
-            acc = mulmod(acc, base, p);
-        }
-        base = mulmod(base, base, p);
-        i += 1;
+    let _ = p;
+    if (s as u16) < P1 {
+        INV251[s as usize]
+    } else {
+        0
     }
-    acc
 }
 
 pub struct G251;
